@@ -98,33 +98,25 @@ theorem neg_ediv_emod (m0 m1 : Int) (h1 : 0 < m1) :
 theorem ediv_neg' (a b : Int) : a / (-b) = -(a / b) := Int.ediv_neg a b
 theorem emod_neg' (a b : Int) : a % (-b) = a % b := Int.emod_neg a b
 
-/-- C02: `div_euclid` on IBig = Euclidean (floor-for-positive-divisor) quotient -/
+/-- C02: `div_euclid` on IBig = Euclidean (floor-for-positive-divisor) quotient.
+    (The case analysis is on the signs and on `m0 % m1 = 0`, then `simp` evaluates whatever `if` / `match` the
+    regenerated text uses for the remainder test — in either polarity and arm order.) -/
 theorem ibig_div_euclid_exact (s0 s1 : Sign) (m0 m1 : Int) (h0 : 0 ≤ m0) (h1 : 0 < m1) :
     impl_ibig_div_euclid s0 m0 s1 m1 = (s0.apply m0) / (s1.apply m1) := by
   have hq : 0 ≤ m0 / m1 := div_nonneg' h0 (by omega)
   have hq1 : 0 ≤ m0 / m1 + 1 := by omega
   have ⟨hn, _⟩ := neg_ediv_emod m0 m1 h1
-  cases s0 <;> cases s1 <;>
-    simp only [impl_ibig_div_euclid, mkIBig, div_rem, mul_, is_zero, add_one, into_typed, Sign.apply,
-      sign_mul_pp, sign_mul_pn, sign_mul_np, sign_mul_nn, ediv_neg', hn]
-  · exact with_sign_nonneg _ _ hq
-  · rw [with_sign_nonneg _ _ hq]; rfl
-  · by_cases hz : m0 % m1 = 0
-    · simp only [hz, decide_true, if_true]; rw [with_sign_nonneg _ _ hq]; rfl
-    · simp only [hz, decide_false, if_false]; rw [with_sign_nonneg _ _ hq1]; rfl
-  · by_cases hz : m0 % m1 = 0
-    · simp only [hz, decide_true, if_true]; rw [with_sign_nonneg _ _ hq]; simp [Sign.apply]
-    · simp only [hz, decide_false, if_false]; rw [with_sign_nonneg _ _ hq1]; simp [Sign.apply]
+  cases s0 <;> cases s1 <;> by_cases hz : m0 % m1 = 0 <;>
+    simp [impl_ibig_div_euclid, mkIBig, div_rem, mul_, is_zero, add_one, into_typed, not_, HasNot.not_, Sign.apply,
+      ediv_neg', hn, hz, with_sign_nonneg _ _ hq, with_sign_nonneg _ _ hq1]
 
 /-- C02: `rem_euclid` on IBig = Euclidean remainder, in `[0, |b|)` -/
 theorem ibig_rem_euclid_exact (s0 s1 : Sign) (m0 m1 : Int) (h0 : 0 ≤ m0) (h1 : 0 < m1) :
     impl_ibig_rem_euclid s0 m0 s1 m1 = (s0.apply m0) % (s1.apply m1) := by
   have ⟨_, hn⟩ := neg_ediv_emod m0 m1 h1
-  cases s0 <;> cases s1 <;>
-    simp only [impl_ibig_rem_euclid, mkUBig, rem_, sub_, is_zero, as_ref, into_typed, Sign.apply,
-      emod_neg', hn]
-  · by_cases hz : m0 % m1 = 0 <;> simp [hz]
-  · by_cases hz : m0 % m1 = 0 <;> simp [hz]
+  cases s0 <;> cases s1 <;> by_cases hz : m0 % m1 = 0 <;>
+    simp [impl_ibig_rem_euclid, mkUBig, rem_, sub_, is_zero, as_ref, into_typed, not_, HasNot.not_, Sign.apply,
+      emod_neg', hn, hz]
 
 /-- C02: `div_rem_euclid` on IBig -/
 theorem ibig_divrem_euclid_exact (s0 s1 : Sign) (m0 m1 : Int) (h0 : 0 ≤ m0) (h1 : 0 < m1) :
@@ -133,17 +125,10 @@ theorem ibig_divrem_euclid_exact (s0 s1 : Sign) (m0 m1 : Int) (h0 : 0 ≤ m0) (h
   have hq : 0 ≤ m0 / m1 := div_nonneg' h0 (by omega)
   have hq1 : 0 ≤ m0 / m1 + 1 := by omega
   have ⟨hn, hn'⟩ := neg_ediv_emod m0 m1 h1
-  cases s0 <;> cases s1 <;>
-    simp only [impl_ibig_divrem_euclid, mkIBig, mkUBig, div_rem, sub_, not_, HasNot.not_, neg_, is_zero,
-      add_one, as_ref, into_typed, Sign.apply, sign_neg_p, sign_neg_n, ediv_neg', emod_neg', hn, hn']
-  · rw [with_sign_nonneg _ _ hq]; rfl
-  · rw [with_sign_nonneg _ _ hq]; rfl
-  · by_cases hz : m0 % m1 = 0
-    · simp [hz, with_sign_nonneg _ _ hq, Sign.apply]
-    · simp [hz, with_sign_nonneg _ _ hq1, Sign.apply]
-  · by_cases hz : m0 % m1 = 0
-    · simp [hz, with_sign_nonneg _ _ hq, Sign.apply]
-    · simp [hz, with_sign_nonneg _ _ hq1, Sign.apply]
+  cases s0 <;> cases s1 <;> by_cases hz : m0 % m1 = 0 <;>
+    simp [impl_ibig_divrem_euclid, mkIBig, mkUBig, div_rem, sub_, not_, HasNot.not_, neg_, is_zero,
+      add_one, as_ref, into_typed, Sign.apply, ediv_neg', emod_neg', hn, hn', hz, with_sign_nonneg _ _ hq,
+      with_sign_nonneg _ _ hq1]
 
 /-- C02: `UBig % IBig` and `UBig.div_rem(IBig)` (lhs sign is `Positive`) -/
 theorem ubig_ibig_rem_exact (s1 : Sign) (m0 m1 : Int) (h0 : 0 ≤ m0) (h1 : 0 < m1) :
